@@ -210,3 +210,12 @@ def x_generator(rows: list, extra: list, k: int, w: int):
         buf = [*extra, *rows]
         for row in buf[-(len(rows) + k) : -k]:
             yield (row + [7] * (w - len(row)))[:w]
+
+
+def x_splice_rows(rows: list, y: int, v: int):
+    # a list display that splices rows of a nested list around a freshly built row (Edit.get_line_translation:
+    # [*trans[:y], *[shift_line(trans[y], n)], *trans[y + 1:]]); the rows of the result are then read and measured
+    if 0 <= y < len(rows):
+        new = [*rows[:y], *[[v, *rows[y]]], *rows[y + 1 :]]
+        return (len(new), [len(r) for r in new], new[y][0], new[y][1:], new[y - 1] if y > 0 else None, new[y + 1] if y + 1 < len(new) else None, new)
+    return None
